@@ -526,6 +526,25 @@ def hostile_replay(tier, out):
             "x = " + "[" * 200 + "]" * 199 + "\n", f"import {'.'.join([L] * 12)} junk junk\n"]):
         big.append((f"regex-{k}", text))
 
+    # a device method called on a name that is not (known to be) a device - undeclared, or an alias of a device: the dispatcher's
+    # handlers must fall through or reject, never spin on the line
+    try:
+        import contracts.c08 as _c8
+        seen_m = set()
+        for cls, meth, sig, kind in _c8.host_callables():
+            if kind == "ctor" or cls == "Core" or meth in seen_m:
+                continue
+            seen_m.add(meth)
+            nreq = len([p_ for p_ in sig.parameters.values() if p_.default is p_.empty and p_.name != "self" and p_.kind in (p_.POSITIONAL_ONLY, p_.POSITIONAL_OR_KEYWORD)])
+            args = ", ".join(["1"] * nreq)
+            big.append((f"method-on-undeclared-name:{meth}", f"from Reduino.Utils import sleep\nghost.{meth}({args})\nx = 1\n"))
+            big.append((f"method-on-undeclared-name-in-main-loop:{meth}", f"from Reduino.Utils import sleep\nwhile True:\n    ghost.{meth}({args})\n    sleep(5)\n"))
+            decl = _c8.DEVICES.get(cls)
+            if decl:
+                big.append((f"method-on-alias:{cls}.{meth}", _c8.PRELUDE + decl + f"\nalias = dev\nalias.{meth}({args})\nx = 1\n"))
+    except Exception as ex_:
+        big.append(("method-on-undeclared-name:harness", f"raise RuntimeError({str(ex_)!r})\n"))
+
     def one_case(job):
         name, text = job
         try:
@@ -540,7 +559,7 @@ def hostile_replay(tier, out):
     with ThreadPoolExecutor(16) as ex:
         hung = [h for h in ex.map(one_case, big) if h]
     out.append({"name": "C11/bounded/terminates-promptly", "status": "discharged" if not hung else "sat", "backend": "bounded-native",
-                "where": f"{len(big)} scripts with explosive constant expressions are transpiled (or rejected) within 20 s each",
+                "where": f"{len(big)} scripts (explosive constant expressions, pathological headers, every device method called on an undeclared name / an alias) are transpiled or rejected within 20 s each",
                 "time": 0.0, "bounded": True, "replay": {"cases": hung}, "replay_confirmed": bool(hung)})
     if known:
         out.append({"name": "C11/bounded/clean-failure/overflow-error", "status": "sat", "backend": "bounded-native",
